@@ -1101,8 +1101,8 @@ def run(ctx):
             pp_ = d + (":" + pp_ if pp_ else "")
     os.environ["PYTHONPATH"] = pp_
     procs = min(14, os.cpu_count() or 4)
-    n_single = 56 if quick else 1500
-    n_double = 44 if quick else 1000
+    n_single = 56 if quick else 1200
+    n_double = 44 if quick else 800
     t_pool = time.time()
     with get_context("spawn").Pool(procs, initializer=_init_worker, maxtasksperchild=60) as pool:
         rows_async = pool.apply_async(policy_rows_worker, (0,))
